@@ -349,9 +349,19 @@ def _echo_work(mon, name, r, pre, circuits, ns, what, failed=False):
 
 
 def _read_records(t):
-    with open(t.raw_data_file_name) as f:
-        data = json.load(f)
-    return data["raw-data"]
+    """the records in the tracker's file; a file that is not one JSON document with a list under "raw-data" holds NO
+    record that matches anything (an older, longer document showing through behind a new one, a half-written file):
+    one pseudo-record that no expectation meets, so that the record checks report it (seeded C14-29 made the monitor
+    itself fail on json.load, which counted as a harness error = INCONCLUSIVE)"""
+    try:
+        with open(t.raw_data_file_name) as f:
+            data = json.load(f)
+        recs = data["raw-data"]
+        if not isinstance(recs, list):
+            raise ValueError("raw-data is not a list")
+        return recs
+    except (ValueError, KeyError, TypeError) as e:  # json.JSONDecodeError is a ValueError
+        return [{"data_type": f"<unreadable tracker file: {type(e).__name__}: {e}>"[:200]}]
 
 
 def _record_reads_as(rc, circuit):
